@@ -75,3 +75,45 @@ Definition cfg_valid (c : cfg) : bool :=
 Definition C05_prune_keeps_live_full : Prop :=
   forall c ops, cfg_valid c = true -> ops_valid c init_mstate ops = true ->
     live_readable c (mrun c ops).
+
+(** ---- the guard of the partial theorem (boolean, computed along the run) ----
+    LINEAR: every commit builds on the previous one (no re-organisation);
+    FRESH ROOTS: a commit that writes something produces a state root that no
+    earlier commit of the history produced ("every block changes the state":
+    no two heights share a root). *)
+Definition onat_eqb (a b : option nat) : bool :=
+  match a, b with
+  | None, None => true
+  | Some x, Some y => Nat.eqb x y
+  | _, _ => false
+  end.
+
+Definition commit_result (c : cfg) (s : mstate) (H : Z) (p : option nat) (memset : bool)
+  (kvs : list (bytes * bytes)) : cres :=
+  (if memset then mem_set_commit else set_kv_pair) c (ms_db s) H (root_of s p) kvs.
+
+Definition op_linear_fresh (c : cfg) (s : mstate) (o : mop) : bool :=
+  match o with
+  | MPrune _ => true
+  | MCommit H p memset kvs =>
+      onat_eqb p (tip_index (ms_ac s)) &&
+      match kvs with
+      | [] => true
+      | _ => match commit_result c s H p memset kvs with
+             | COk _ r => negb (existsb (root_eqb r) (ms_roots s))
+             | _ => true
+             end
+      end
+  end.
+
+Fixpoint linear_fresh (c : cfg) (s : mstate) (ops : list mop) : bool :=
+  match ops with
+  | [] => true
+  | o :: tl => op_linear_fresh c s o && linear_fresh c (mstep c s o) tl
+  end.
+
+(** THE PROPERTY under the guard *)
+Definition C05_prune_keeps_live_guarded : Prop :=
+  forall c ops, cfg_valid c = true -> ops_valid c init_mstate ops = true ->
+    linear_fresh c init_mstate ops = true ->
+    live_readable c (mrun c ops).
